@@ -52,3 +52,24 @@ package creds
 //@   assumed
 //@   props C17
 //@   noeffect
+
+// C10: the question put to the credential helpers names exactly the scheme
+// and host (with port) of the URL the credentials are wanted for, and the
+// wrapper remembers that URL.
+//@ func (*CredentialHelperContext).GetCredentialHelper
+//@   props C10
+//@   requires @inv ctxt != nil && u != nil && ctxt.urlConfig != nil && ctxt.commandCredHelper != nil
+//@   ensures result.Url == u && has(result.Input, "host") && len(result.Input["host"]) == 1 && result.Input["host"][0] == old(u.Host)
+//@   ensures has(result.Input, "protocol") && len(result.Input["protocol"]) == 1 && result.Input["protocol"][0] == old(u.Scheme)
+//@ func (*github.com/git-lfs/git-lfs/v3/config.URLConfig).Bool
+//@   assumed
+//@   props C10
+//@   noeffect
+//@ func (*github.com/git-lfs/git-lfs/v3/config.URLConfig).Get
+//@   assumed
+//@   props C10
+//@   noeffect
+//@ func NewCredentialHelpers
+//@   assumed
+//@   props C10
+//@   modifies fresh
